@@ -44,6 +44,7 @@ class Opts(object):
         self.boolops = False       # and/or/not/conditional expressions with side-effecting operands
         self.comprehension = False
         self.global_ = False       # `global G` + assignments to G
+        self.append = True         # with mutation: also emit m.append(...) (an effect no state variable tracks)
         self.only = None           # optional set of construct names: only these (plus assign) are generated
         self.fresh_for_targets = False   # every for loop gets its own target name (i1, i2, ...) never assigned elsewhere
         self.helper_calls = False  # calls to module-level helpers H1 / H2 (recursive conversion)
@@ -140,7 +141,7 @@ class Gen(object):
         if o.delete and defined:
             choices += ['del']
         if o.mutation:
-            choices += ['attr', 'sub', 'append']
+            choices += ['attr', 'sub'] + (['append'] if o.append else [])
         if o.global_:
             choices += ['global']
         if o.only is not None:
